@@ -645,3 +645,49 @@ def push_problems(repo, folder, bb_cls, ops):
         else:
             res.extend(r)
     return res
+
+
+# ---------------------------------------------------------------------------
+def pp(v):
+    """readable rendering of abstract values for messages"""
+    if isinstance(v, Sym):
+        if v.op == "call" and v.args and isinstance(v.args[0], Sym) and v.args[0].op == "attr":
+            recv, name = v.args[0].args
+            return "%s.%s(%s)" % (pp(recv), name, ", ".join(pp(a) for a in v.args[1:]))
+        if v.op == "call":
+            return "%s(%s)" % (v.args[0], ", ".join(pp(a) for a in v.args[1:]))
+        if v.op == "Mod" and len(v.args) == 2:
+            return "(%s) %% %s" % (pp(v.args[0]), pp(v.args[1]))
+        if v.op == "elem":
+            return "<each of %s>" % pp(v.args[0])
+        if v.op == "index":
+            return "%s[%s]" % (pp(v.args[0]), pp(v.args[1]))
+        if v.op in ("ins", "len", "DN", "target", "tstart") and v.args:
+            return "%s#%s" % (v.op, v.args[0])
+        if not v.args:
+            return str(v.op)
+        return "%s(%s)" % (v.op, ", ".join(pp(a) for a in v.args))
+    if isinstance(v, Lin):
+        parts = []
+        for a, c in sorted(v.terms.items(), key=lambda kv: key(kv[0])):
+            s = pp(a)
+            if c == 1:
+                parts.append("+ " + s)
+            elif c == -1:
+                parts.append("- " + s)
+            elif c < 0:
+                parts.append("- %d*%s" % (-c, s))
+            else:
+                parts.append("+ %d*%s" % (c, s))
+        if v.const > 0 or not parts:
+            parts.append("+ %d" % v.const)
+        elif v.const < 0:
+            parts.append("- %d" % -v.const)
+        s = " ".join(parts)
+        return s[2:] if s.startswith("+ ") else s
+    if isinstance(v, Obj):
+        return "<%s>" % v.name
+    if isinstance(v, (list, tuple)):
+        s = ", ".join(pp(x) for x in v)
+        return ("[%s]" if isinstance(v, list) else "(%s)") % s
+    return show(v)
